@@ -74,6 +74,25 @@ theorem Interner.html5_ids {x : Interner} (h : x.Inv) {e' : Env} (hp : x.html5.1
   intro hp hids
   exact Interner.html5Names_ids (x.addNamespace xhtmlNs).2 T _ h3 e' hp hc hd j L ids hL hids id
 
+/-- The three namespace ids `html5()` keeps are found under their URIs afterwards. -/
+theorem Interner.html5_namespaces {x : Interner} (h : x.Inv) :
+    x.html5.1.namespace xhtmlNs = some x.html5.2.xhtml ∧
+    x.html5.1.namespace mathmlNs = some x.html5.2.mathml ∧
+    x.html5.1.namespace svgNs = some x.html5.2.svg := by
+  unfold Interner.html5
+  generalize html5Tables = T
+  have i1 := Interner.inv_addNamespace h xhtmlNs
+  have i2 := Interner.inv_addNamespace i1 mathmlNs
+  have m3 : (((x.addNamespace xhtmlNs).1.addNamespace mathmlNs).1.addNamespace svgNs).1.Mono
+      ((((x.addNamespace xhtmlNs).1.addNamespace mathmlNs).1.addNamespace svgNs).1.html5Names
+        (x.addNamespace xhtmlNs).2 T).1 := by
+    rw [(Interner.html5Names_eq _ _ _).1]; exact Interner.regAll_mono _ _
+  have m2 := (Interner.reg_mono ((x.addNamespace xhtmlNs).1.addNamespace mathmlNs).1 (.ns svgNs)).trans m3
+  have m1 := (Interner.reg_mono (x.addNamespace xhtmlNs).1 (.ns mathmlNs)).trans m2
+  exact ⟨m1.nsId _ _ (IdMap.getId_getIdMut_self h.ns xhtmlNs),
+    m2.nsId _ _ (IdMap.getId_getIdMut_self i1.ns mathmlNs),
+    m3.nsId _ _ (IdMap.getId_getIdMut_self i2.ns svgNs)⟩
+
 /-! ### … which is `HtmlNames.idsContain` -/
 
 theorem Env.holds_name_iff (e : Env) (l : Str) (n id : Nat) :
